@@ -1,6 +1,7 @@
 (* Line-oriented driver around the extracted model (Bbmodel).  Hand-written, part of the trusted base.
-   Request:  CMD <tab> arg ...   where an arg is a comma-separated list of decimal integers.
-   Reply: one line. *)
+   Request:  CMD <tab> arg ...   where an arg is a comma-separated list of decimal integers (code points or
+   token types).  Reply: one line (plain text or JSON).  Integers of the model (Z) are printed in binary
+   ("-b101") so that no bignum library is needed. *)
 open Bbmodel
 
 let rec nat_of_int n = if n <= 0 then O else S (nat_of_int (n - 1))
@@ -11,11 +12,107 @@ let rec int_of_pos = function XH -> 1 | XO p -> 2 * int_of_pos p | XI p -> 2 * i
 let int_of_n = function N0 -> 0 | Npos p -> int_of_pos p
 
 let ints s = if s = "" then [] else List.map int_of_string (String.split_on_char ',' s)
+let cps s = List.map n_of_int (ints s)
+
+(* ---- printing ---- *)
+let rec bits_of_pos p acc = match p with XH -> "1" ^ acc | XO q -> bits_of_pos q ("0" ^ acc) | XI q -> bits_of_pos q ("1" ^ acc)
+let z_str = function Z0 -> "\"b0\"" | Zpos p -> "\"b" ^ bits_of_pos p "" ^ "\"" | Zneg p -> "\"-b" ^ bits_of_pos p "" ^ "\""
+
+let json_str (s : n list) =
+  let b = Buffer.create 16 in
+  Buffer.add_char b '"';
+  List.iter (fun c ->
+    let c = int_of_n c in
+    if c = 34 then Buffer.add_string b "\\\""
+    else if c = 92 then Buffer.add_string b "\\\\"
+    else if c >= 32 && c < 127 then Buffer.add_char b (Char.chr c)
+    else if c < 0x10000 then Buffer.add_string b (Printf.sprintf "\\u%04x" c)
+    else begin
+      let c' = c - 0x10000 in
+      Buffer.add_string b (Printf.sprintf "\\u%04x\\u%04x" (0xD800 + (c' lsr 10)) (0xDC00 + (c' land 0x3FF)))
+    end) s;
+  Buffer.add_char b '"';
+  Buffer.contents b
+
+let fn_name = function
+  | FExp -> "exp" | FLog -> "log" | FSin -> "sin" | FCos -> "cos" | FTan -> "tan" | FArcsin -> "arcsin"
+  | FArccos -> "arccos" | FArctan -> "arctan" | FSinh -> "sinh" | FCosh -> "cosh" | FTanh -> "tanh"
+  | FArcsinh -> "arcsinh" | FArccosh -> "arccosh" | FArctanh -> "arctanh" | FSqrt -> "sqrt"
+
+let rec term_js = function
+  | TDec (m, e) -> "[\"dec\"," ^ z_str m ^ "," ^ z_str e ^ "]"
+  | TPi -> "[\"pi\"]" | TI -> "[\"i\"]"
+  | TPar s -> "[\"par\"," ^ json_str s ^ "]"
+  | TReg s -> "[\"reg\"," ^ json_str s ^ "]"
+  | TAdd (a, b) -> "[\"add\"," ^ term_js a ^ "," ^ term_js b ^ "]"
+  | TMul (a, b) -> "[\"mul\"," ^ term_js a ^ "," ^ term_js b ^ "]"
+  | TPow (a, b) -> "[\"pow\"," ^ term_js a ^ "," ^ term_js b ^ "]"
+  | TNeg a -> "[\"neg\"," ^ term_js a ^ "]"
+  | TInv a -> "[\"inv\"," ^ term_js a ^ "]"
+  | TFn (f, a) -> "[\"fn\",\"" ^ fn_name f ^ "\"," ^ term_js a ^ "]"
+
+let vtype_name = function
+  | VTArray -> "array" | VTFloat -> "float" | VTComplex -> "complex" | VTInt -> "int" | VTStr -> "str" | VTBool -> "bool"
+
+let rec value_js = function
+  | VInt z -> "{\"k\":\"int\",\"v\":" ^ z_str z ^ "}"
+  | VFlt t -> "{\"k\":\"float\",\"t\":" ^ term_js t ^ "}"
+  | VCpx t -> "{\"k\":\"complex\",\"t\":" ^ term_js t ^ "}"
+  | VSym t -> "{\"k\":\"sym\",\"t\":" ^ term_js t ^ "}"
+  | VTrf t -> "{\"k\":\"trf\",\"t\":" ^ term_js t ^ "}"
+  | VBool b -> "{\"k\":\"bool\",\"v\":" ^ (if b then "true" else "false") ^ "}"
+  | VStr s -> "{\"k\":\"str\",\"v\":" ^ json_str s ^ "}"
+  | VArr (k, r, c, es) ->
+      Printf.sprintf "{\"k\":\"arr\",\"ty\":\"%s\",\"r\":%d,\"c\":%d,\"e\":[%s]}" (vtype_name k) (int_of_nat r) (int_of_nat c)
+        (String.concat "," (List.map value_js es))
+  | VPName s -> "{\"k\":\"pname\",\"v\":" ^ json_str s ^ "}"
+  | VList es -> "{\"k\":\"list\",\"e\":[" ^ String.concat "," (List.map value_js es) ^ "]}"
+
+let kv_js l = "[" ^ String.concat "," (List.map (fun (k, v) -> "[" ^ json_str k ^ "," ^ value_js v ^ "]") l) ^ "]"
+let opt_str = function None -> "null" | Some s -> json_str s
+
+let op_js o =
+  let a = match o.oargs with
+    | None -> "null"
+    | Some (ps, kws) -> "{\"pos\":[" ^ String.concat "," (List.map value_js ps) ^ "],\"kw\":" ^ kv_js kws ^ "}" in
+  "{\"op\":" ^ json_str o.oname ^ ",\"args\":" ^ a ^ ",\"modes\":[" ^ String.concat "," (List.map z_str o.omodes) ^ "]}"
+
+let prog_js p =
+  "{\"name\":" ^ json_str p.p_name ^ ",\"version\":" ^ json_str p.p_version ^
+  ",\"target\":" ^ opt_str p.p_target ^ ",\"target_opts\":" ^ kv_js p.p_target_opts ^
+  ",\"type\":" ^ opt_str p.p_type ^ ",\"type_opts\":" ^ kv_js p.p_type_opts ^
+  ",\"ops\":[" ^ String.concat "," (List.map op_js p.p_ops) ^ "]" ^
+  ",\"modes\":[" ^ String.concat "," (List.map z_str p.p_modes) ^ "]" ^
+  ",\"params\":[" ^ String.concat "," (List.map json_str p.p_params) ^ "]" ^
+  ",\"vars\":" ^ kv_js p.p_vars ^ "}"
+
+let err_js = function
+  | EUndefined (s, l, c) -> Printf.sprintf "{\"cls\":\"undefined\",\"name\":%s,\"line\":%d,\"col\":%d}" (json_str s) (int_of_nat l) (int_of_nat c)
+  | EReservedReg (s, l, c) -> Printf.sprintf "{\"cls\":\"reserved_reg\",\"name\":%s,\"line\":%d,\"col\":%d}" (json_str s) (int_of_nat l) (int_of_nat c)
+  | EReservedKw (s, l, c) -> Printf.sprintf "{\"cls\":\"reserved_kw\",\"name\":%s,\"line\":%d,\"col\":%d}" (json_str s) (int_of_nat l) (int_of_nat c)
+  | EMode -> "{\"cls\":\"mode\"}" | ECast -> "{\"cls\":\"cast\"}" | ELoopValue -> "{\"cls\":\"loop_value\"}"
+  | ERange -> "{\"cls\":\"range\"}" | EIndex -> "{\"cls\":\"index\"}" | EArrayType -> "{\"cls\":\"array_type\"}"
+  | EArrayShape -> "{\"cls\":\"array_shape\"}" | EArrayRagged -> "{\"cls\":\"array_ragged\"}"
+  | EArrayNoShape -> "{\"cls\":\"array_noshape\"}" | EArrayEmpty -> "{\"cls\":\"array_empty\"}"
+  | EPNameNotArray -> "{\"cls\":\"pname_not_array\"}" | EIncludeArity -> "{\"cls\":\"include_arity\"}"
+  | EIncludeKw -> "{\"cls\":\"include_kw\"}" | EIncludeMissing -> "{\"cls\":\"include_missing\"}"
+  | EMissingParam -> "{\"cls\":\"missing_param\"}" | ENotTemplate -> "{\"cls\":\"not_template\"}"
+  | ESyntax -> "{\"cls\":\"syntax\"}" | EFileNotFound -> "{\"cls\":\"file_not_found\"}" | EOther -> "{\"cls\":\"other\"}"
+
+let outcome_js f = function
+  | Ok a -> "{\"out\":\"ok\",\"v\":" ^ f a ^ "}"
+  | Refuse e -> "{\"out\":\"refuse\",\"err\":" ^ err_js e ^ "}"
+  | Unspec -> "{\"out\":\"unspec\"}"
+
+(* file system argument: path1;text1;path2;text2 ... as fields *)
+let rec fs_of = function
+  | p :: t :: rest -> (cps p, cps t) :: fs_of rest
+  | _ -> []
 
 let handle line =
   match String.split_on_char '\t' line with
-  | ["LEX"; cps] ->
-      let w = List.map n_of_int (ints cps) in
+  | ["LEX"; s] ->
+      let w = cps s in
       let n = List.length w in
       (match bb_lex w (nat_of_int (8 * n + 64)) (nat_of_int 64) with
        | None -> "NONE"
@@ -28,11 +125,13 @@ let handle line =
       let n = List.length w in
       (match bb_recognise w (nat_of_int ((n + 2) * (n + 2))) (nat_of_int (64 * (n + 2))) with
        | None -> "NONE" | Some true -> "T" | Some false -> "F")
-  | ["PARSE"; cps] ->
-      let w = List.map n_of_int (ints cps) in
+  | ["PARSE"; s] ->
+      let w = cps s in
       let n = List.length w in
       (match bb_parse w (nat_of_int (8 * n + 64)) (nat_of_int 64) with
        | None -> "NONE" | Some None -> "FAIL" | Some (Some _) -> "OK")
+  | "LOADS" :: cwd :: text :: fs -> outcome_js prog_js (bb_loads (fs_of fs) (cps cwd) (cps text))
+  | "LOAD" :: cwd :: path :: fs -> outcome_js prog_js (bb_load (fs_of fs) (cps cwd) (cps path))
   | _ -> "ERR bad request"
 
 let () =
